@@ -1020,6 +1020,17 @@ def x_dump_file(data=None, path=None, want_dis=True, max_code=None, route="load_
                     d["instrs_gi"] = {"instrs": [instr_to_dict(i, opc, py2file, cmp_op) for i in top.get_instructions(c)]}
                 except Exception as e:
                     d["instrs_gi"] = {"err": "%s: %s" % (type(e).__name__, e)}
+        # the third way to the instructions of a code object: xdis.lineoffsets.LineOffsetInfo(opc, code).instructions
+        if tuple(version) >= (2, 1):
+            cmp_op = list(getattr(opc, "cmp_op", ()))
+            for c, d in zip(codes, r["dis"]):
+                if "instrs" not in d or len(d["instrs"]) > 400:
+                    continue
+                try:
+                    loi = x.lineoffsets.LineOffsetInfo(opc, c)
+                    d["instrs_loi"] = {"instrs": [instr_to_dict(i, opc, py2file, cmp_op) for i in loi.instructions]}
+                except Exception as e:
+                    d["instrs_loi"] = {"err": "%s: %s" % (type(e).__name__, e)}
     return r
 
 
